@@ -184,7 +184,7 @@ def c18_saved_keys(ctx, cls):
 def c18_npz(ctx, dtype, dim):
     rng = np.random.default_rng(ctx.rng.randrange(1 << 30))
     with tempfile.TemporaryDirectory() as tmp:
-        for payload, times in itertools.product(("scalar", "vector", "series", "vector-series"), ("none", "date", "rel", "date+ref")):
+        for payload, times in itertools.product(("scalar", "vector", "series", "vector-series"), ("none", "date", "rel", "date+ref", "date+rel")):
             shape = [int(x) for x in rng.integers(1, 5, dim)]
             series = payload in ("series", "vector-series")
             full = shape + ([3] if series else []) + ([] if payload in ("scalar", "series") else [2])
@@ -192,12 +192,14 @@ def c18_npz(ctx, dtype, dim):
             arr = (rng.random(full) > 0.5) if dt.kind == "b" else (rng.random(full).astype(dt) if dt.kind == "f" else rng.integers(0, np.iinfo(dt).max, full).astype(dt))
             kw = dict(space_dim=dim, dimensions=[float(x) for x in rng.random(dim) + 0.1], origin=[float(x) for x in rng.normal(size=dim)], scalar=payload in ("scalar", "series"),
                       series=series, name=f"img-{payload}-{times}")
-            if times in ("date", "date+ref"):
+            if times in ("date", "date+ref", "date+rel"):
                 kw["date"] = [T0 + timedelta(minutes=7 * k) for k in range(3)] if series else T0
                 if times == "date+ref":
                     kw["reference_date"] = T0 - timedelta(hours=5)
             elif times == "rel":
                 kw["time"] = [1.5 * k for k in range(3)] if series else 12.25
+            if times == "date+rel":            # an experiment clock that is NOT date - reference date
+                kw["time"] = [0.0, 30.0, 90.0] if series else 120.0
             with contextlib.redirect_stdout(io.StringIO()):
                 img = darsia.Image(arr.copy(), **kw)
                 p = Path(tmp) / f"{payload}-{times}.npz"
